@@ -71,6 +71,16 @@ CLAIMED = {
         note="Trusted: Lean kernel; value abstraction (what validation looks at) tied by correspondence; ipaddress.IPv4Address cross-checked by Model/Ipv4.lean; PyYAML; Diameter(config=) only for configurations whose unchecked fields are ordinary (base-message construction is outside the property).",
         technique="Lean 4 proof (permutation invariance, lookup lemmas) + differential correspondence",
         design="4 C19"),
+    "C06": dict(
+        text="Lean: executable model of the peer state machine (one tick = run() of the current state + get_next_state, all seven state classes, both roles, restart on the same node object) and of the base-message validity predicates; theorems over EVERY history of ticks, inbound messages and local events: Open/Closing only after a capabilities exchange whose CER/CEA passed the validity predicate, which holds only for messages carrying the configured peer's Origin-Host and Origin-Realm (inductive invariant); a stopped machine is Closed with its transport released; run() is total and never stops the loop except by the transition to Closed; per-transition theorems for the named clauses (local stop: queued messages + exactly one DPR then Closing, nothing written while Closing, DPA closes; valid DPR answered with its identifiers then Closed; peer disconnect closes Open/Closing/Wait-I-CEA; non-CEA while awaiting the CEA closes; idle Open emits a DWR; delivery only by a tick in Open, one message, misaddressed requests dropped). Tie: the real state classes ticked one run()+get_next_state at a time over a substituted transport, inbound messages passed through the wire codec; breadth-first over all event sequences deduplicated on the implementation's state until closure (thorough) plus random histories; per-step observations equal the model's and satisfy a monitor written from the statement.",
+        note="Trusted: Lean kernel; hand model tied by per-step correspondence; substituted transport/lock/time.sleep (psmdrv.py); abstraction of decoded messages to model tokens; the monitor is Python. Threads, sockets, timers: C04/C05/C08. As implemented: an unacceptable DWA moves Open to Closing without a DPR; an invalid CEA is ignored in Wait-I-CEA; Wait-Conn-Ack + valid CER enters the unimplemented Wait-Conn-Ack/Elect state; Closing waits for the DPA without a timeout.",
+        technique="Lean 4 proof (inductive invariant over event histories + per-transition theorems) + state-space-exhaustive differential correspondence",
+        design="4 C06"),
+    "C07": dict(
+        text="Lean (same state-machine model): for every history, both roles, across restarts on the same node object, the CEA/DWA/DPA written to the transport are, in order, exactly the answers owed to the valid CER/DWR/DPR consumed in an answering state (same command, the request's Hop-by-Hop and End-to-End), one per request and none without a request; no answer is ever parked in the send queue, so it is written in the tick that consumed its request. Tie: C06's exploration plus request-burst histories with boundary/repeated identifiers and reconnects; every answer on the substituted transport is decoded and matched with the request consumed in the same tick (command, R flag, identifiers, local Origin-Host/Realm, Result-Code, length).",
+        note="Trusted: Lean kernel; hand model tied by per-step correspondence (props/c06.py, psmdrv.py); AVP content of the answers is checked on the implementation only (the model carries command and identifiers); identifiers are modelled as naturals (the wire width is C01's).",
+        technique="Lean 4 proof (history invariant: answers written = answers owed) + differential correspondence",
+        design="4 C07"),
 }
 
 NOT_YET = {
